@@ -64,11 +64,12 @@ PROPS = {
         "assumptions": ["node ranges lie on char boundaries and inside the document (T-node)"],
     },
     "C07": {
-        "units": [],
+        "units": ["indent"],
         "kani": [K("core", "split_first_meta_var_len5", "fix-template variable scanner vs the spelling table ($A/$$A single, $$$A multi, longest [A-Z_0-9]* name, digit-first/lower-case/lone sigils literal)", bound="strings over {$,A,a,_,1,space}, length <= 5"),
                  K("core", "split_first_meta_var_transform_len4", "same with a transform key", bound="length <= 4"),
                  K("core", "get_indent_at_offset_len8", "indentation at an offset = run of SPACES after the last line break (tabs are text)", bound="bytes over {space,newline,a,tab}, length <= 8 (< MAX_LOOK_AHEAD)")],
-        "decided": ["template variable scanner (split_first_meta_var) and get_indent_at_offset, for the stated bounds only"],
+        "decided": ["template variable scanner (split_first_meta_var) for the stated bounds only",
+                    "indentation (unit indent, unbounded, C = String): get_indent_at_offset == leading spaces of the line the prefix ends on (512-unit window; tabs are text); extract_with_deindent / deindent_slice attach exactly that indentation to a multi-line capture and none to a single-line one; indent_lines == reindent(text, original, target): first line untouched, every further line gains (target - original) spaces or loses (original - target) leading spaces when it has them; indent_lines_impl / remove_indent line by line"],
         "not_decided": ["create_template / indent_lines / remove_indent / extract_with_deindent: the harnesses written for them (kh/core/template.rs, kh/core/indent.rs) exhaust CBMC's memory even at 3-4 bytes (Vec<String>, Cow, split/strip_prefix adapters) and Verus rejects the iterator adapters: NOT decided",
                         "replace_fixer / maybe_get_var (need a Node)", "string_case"],
         "assumptions": [],
